@@ -24,6 +24,7 @@ import S2.STUV
 import S2.Exact
 import S2.Pred
 import S2.Contain
+import S2.PointCross
 /- NOTE: this is the model of the REPAIRED code (docs/fixes/fix_C16_F1..F4.diff, fix_C17_F6.diff,
    D50_intersection_canonical_order.diff): the `Norm2 < DBL_MIN` guard in
    intersectionStableSorted, the power-of-two scaling in PreciseVector.Vector(), the lexicographic-minimum collinear rule, the
@@ -34,8 +35,7 @@ open S2 S2.Exact S2.Pred
 
 /-! ### constants -/
 
-def fz : F64 := F64.zero false
-def zero3 : V3 := ⟨fz, fz, fz⟩
+/- `fz`, `zero3` : defined in `S2.PointCross` (same namespace) -/
 def f1 : F64 := F64.one
 def f2 : F64 := F64.two
 def f4 : F64 := F64.four
@@ -185,49 +185,8 @@ def robustNormalWithLength (x y : V3) : V3 × F64 :=
   let pt := if F64.fne length fz then tmp.mul (f1 / length) else zero3
   (pt, fhalf * length)
 
-/-! #### exact path: math/big.Float values with their signed zero -/
-
-/-- an exact value `v / 2^k` (k known from context) as big.Float holds it: `nz` = the `neg` flag of
-    a zero value (meaningful only when `v = 0`) -/
-structure SZ where
-  v : Int
-  nz : Bool
-deriving DecidableEq, Inhabited
-
-namespace SZ
-/-- big.Float `neg` flag -/
-def isNeg (s : SZ) : Bool := if s.v == 0 then s.nz else decide (s.v < 0)
-/-- `SetFloat64` -/
-def ofF64 (x : F64) : SZ := ⟨toInt x, x.signBit⟩
-/-- big.Float.Mul : `z.neg = x.neg != y.neg`, also for zeros -/
-def mul (a b : SZ) : SZ := ⟨a.v * b.v, a.isNeg != b.isNeg⟩
-/-- big.Float.Sub in mode ToNearestEven: `(±0) − (±0)` is `−0` only for `(−0) − (+0)`;
-    an exact cancellation of non-zero values gives `+0` -/
-def sub (a b : SZ) : SZ := ⟨a.v - b.v, a.v == 0 && b.v == 0 && a.nz && !b.nz⟩
-/-- `Float64()` of the value `v · 2^e` : one rounding to nearest even -/
-def toF64 (s : SZ) (e : Int) : F64 := F64.roundDyadic s.isNeg s.v.natAbs e
-end SZ
-
-structure PV where
-  x : SZ
-  y : SZ
-  z : SZ
-deriving DecidableEq, Inhabited
-
-/-- `PreciseVectorFromVector` (scale 2^-1074) -/
-def PV.ofV3 (v : V3) : PV := ⟨SZ.ofF64 v.x, SZ.ofF64 v.y, SZ.ofF64 v.z⟩
-/-- `PreciseVector.Cross` -/
-def PV.cross (v o : PV) : PV :=
-  ⟨(v.y.mul o.z).sub (v.z.mul o.y), (v.z.mul o.x).sub (v.x.mul o.z), (v.x.mul o.y).sub (v.y.mul o.x)⟩
-/-- bit length of |v| : big.Float's `MantExp` exponent of the integer v -/
-def SZ.bitLen (s : SZ) : Nat := if s.v == 0 then 0 else s.v.natAbs.log2 + 1
-/-- `PreciseVector.Vector()` : the vector is first scaled by the power of two that brings its largest
-    component into [0.5, 1) (so the common scale `2^e` of the components does not matter any more),
-    then three roundings to float64, then the float `Normalize()`. -/
-def PV.toVector (v : PV) (_e : Int) : V3 :=
-  let m : Int := (max v.x.bitLen (max v.y.bitLen v.z.bitLen) : Nat)
-  (V3.mk (v.x.toF64 (-m)) (v.y.toF64 (-m)) (v.z.toF64 (-m))).normalize
-def PV.toIV3 (v : PV) : IV3 := ⟨v.x.v, v.y.v, v.z.v⟩
+/-! #### exact path: math/big.Float values with their signed zero: `SZ`, `PV` — moved to `S2.PointCross`
+     (same namespace `S2.EdgeNum`), because `Point.PointCross` needs them since repair D60 -/
 
 /-- one step of the collinear rule: `if ok && p.Cmp(x) == -1 { x = p }` -/
 def pickStep (x : V3) (c : V3 × Bool) : V3 := if c.2 && vlt c.1 x then c.1 else x
@@ -288,10 +247,8 @@ def intersectionOld (a0 a1 b0 b1 : V3) : V3 :=
 
 /-! ### C17 : distances -/
 
-/-- `Point.PointCross` -/
-def pointCross (p op : V3) : V3 :=
-  let x := (p.add op).cross (op.sub p)
-  if V3.feq x zero3 then p.ortho else x
+/- `Point.PointCross` (`pointCross`, pre-repair `pointCrossOld`, `pointCrossFloat`, `pointCrossMinNorm2`): in `S2.PointCross`
+   (same namespace `S2.EdgeNum`) -/
 
 /-- `ChordAngleBetweenPoints` -/
 def chordBetween (x y : V3) : F64 := F64.fmin f4 (x.sub y).norm2
